@@ -64,6 +64,7 @@ var extTable = map[string]extEff{
 	"(*github.com/valyala/fastjson.Value).GetObject": {alias: []int{0}}, "(*github.com/valyala/fastjson.Value).StringBytes": {alias: []int{0}},
 	"(*github.com/valyala/fastjson.Object).Visit": {calls: 1},
 	"(reflect.Value).Convert":                     {alias: []int{0}}, "(reflect.Value).Interface": {alias: []int{0}}, "reflect.ValueOf": {alias: []int{0}},
+	"reflect.Indirect": {alias: []int{0}}, "(reflect.Value).Elem": {alias: []int{0}}, "(reflect.Value).Field": {alias: []int{0}}, "(reflect.Value).Index": {alias: []int{0}}, "(reflect.Value).Addr": {alias: []int{0}}, "(reflect.Value).Bytes": {alias: []int{0}},
 	"(*time.Time).GobDecode": {writes: []int{0}}, "(*time.Time).UnmarshalText": {writes: []int{0}}, "(*time.Time).UnmarshalJSON": {writes: []int{0}}, "(*time.Time).UnmarshalBinary": {writes: []int{0}},
 	"fmt.Fprintf": {writes: []int{0}}, "fmt.Fprint": {writes: []int{0}}, "fmt.Fprintln": {writes: []int{0}}, "io.WriteString": {writes: []int{0}},
 	"git.sr.ht/~mariusor/go-xsd-duration.Unmarshal": {writes: []int{1}},
@@ -84,6 +85,9 @@ var extPurePrefixes = []string{"strings.", "strconv.", "unicode/", "errors.", "f
 	"bytes.Index", "bytes.Contains", "bytes.HasPrefix", "bytes.HasSuffix", "encoding/json.Marshal", "github.com/go-ap/jsonld.Marshal", "github.com/go-ap/errors.",
 	"git.sr.ht/~mariusor/go-xsd-duration.Marshal", "(*strings.Builder).String", "(*strings.Builder).Len", "(*bytes.Buffer).Len", "(*bytes.Buffer).String",
 	"(*github.com/valyala/fastjson.Value).", "(*github.com/valyala/fastjson.Object).Len", "math.", "unicode.", "(*strings.Builder).Reset",
+	"(reflect.Value).Type", "(reflect.Value).CanConvert", "(reflect.Value).CanInterface", "(reflect.Value).CanAddr", "(reflect.Value).NumField", "(reflect.Value).Len",
+	"(reflect.Value).String", "(reflect.Value).Int", "(reflect.Value).Uint", "(reflect.Value).Float", "(reflect.Value).Bool", "(reflect.Value).Pointer", "(reflect.Value).UnsafePointer",
+	"reflect.DeepEqual", "(*reflect.rtype).", "reflect.PointerTo", "reflect.PtrTo",
 	"slices.Contains", "slices.Index", "slices.Equal", "maps.Keys", "sort.Search", "bytes.Compare", "bytes.Count", "bytes.LastIndex", "bytes.ToLower", "bytes.ToUpper", "bytes.Clone", "slices.Clone"}
 
 type effects struct {
